@@ -7,3 +7,149 @@ try:
     REPLAYERS.update(getattr(_ring, "REPLAYERS", {}))
 except ImportError:
     _ring = None
+
+import ast
+import numpy, z3
+from pyvc import sym, loopcut, frames
+from pyvc.sym import cur
+
+PRNG = "pybrops/core/random/prng.py"
+SAMP = "pybrops/core/random/sampling.py"
+ADDON = "pybrops/opt/algo/pymoo_addon.py"
+MATE = "pybrops/breed/prot/mate/"
+CFG = "pybrops/breed/prot/sel/cfg/"
+
+# functions whose contract includes DrawsOnlyFrom(<designated generator>)
+FRAMED = [
+    (SAMP, "stochastic_universal_sampling"), (SAMP, "tiled_choice"), (SAMP, "axis_shuffle"), (SAMP, "outcross_shuffle"),
+    (MATE + "util.py", "mat_meiosis"), (MATE + "util.py", "mat_dh"), (MATE + "util.py", "mat_mate"),
+    ("pybrops/core/util/mate.py", "dense_meiosis"), ("pybrops/core/util/mate.py", "dense_dh"), ("pybrops/core/util/mate.py", "dense_cross"),
+    (MATE + "SelfCross.py", "SelfCross.mate"), (MATE + "TwoWayCross.py", "TwoWayCross.mate"), (MATE + "TwoWayDHCross.py", "TwoWayDHCross.mate"),
+    (MATE + "ThreeWayCross.py", "ThreeWayCross.mate"), (MATE + "ThreeWayDHCross.py", "ThreeWayDHCross.mate"),
+    (MATE + "FourWayCross.py", "FourWayCross.mate"), (MATE + "FourWayDHCross.py", "FourWayDHCross.mate"),
+    ("pybrops/breed/prot/pt/G_E_Phenotyping.py", "G_E_Phenotyping.phenotype"),
+    (CFG + "SubsetSelectionConfiguration.py", "SubsetSelectionConfiguration.sample_xconfig"),
+    (CFG + "RealSelectionConfiguration.py", "RealSelectionConfiguration.sample_xconfig"),
+    (CFG + "IntegerSelectionConfiguration.py", "IntegerSelectionConfiguration.sample_xconfig"),
+    (CFG + "BinarySelectionConfiguration.py", "BinarySelectionConfiguration.sample_xconfig"),
+    (CFG + "SubsetMateSelectionConfiguration.py", "SubsetMateSelectionConfiguration.sample_xconfig"),
+    ("pybrops/opt/algo/SteepestDescentSubsetHillClimber.py", "SteepestDescentSubsetHillClimber.minimize"),
+    ("pybrops/opt/algo/SortingSteepestDescentSubsetHillClimber.py", "SortingSteepestDescentSubsetHillClimber.minimize"),
+    # operators that are handed pymoo's random_state: known finding C08-F7b (they use numpy.random)
+    (ADDON, "tiled_choice"), (ADDON, "SubsetRandomSampling._do"), (ADDON, "ReducedExchangeCrossover._do"),
+    (ADDON, "ReducedExchangeMutation._do"),
+]
+
+
+@unit(P, "frame[entropy sources: stochastic functions draw only from their designated generator]", "A1",
+      targets=["%s:%s" % t for t in FRAMED])
+def u_frames(ctx):
+    ctx.trust("entropy frame analysis is syntactic per function (pyvc/frames.py): every reference to a module-level stream, "
+              "global_prng (outside `if x is None: x = global_prng`), a generator constructor, time/os.urandom/uuid is a frame violation")
+    for rel, q in FRAMED:
+        node = frames.function_node(rel, q)
+        refs = frames.entropy_refs(node)
+        ctx.record("frame:%s:%s:draws-only-from-designated-generator" % (rel.split("/")[-1], q), not refs, kind="frame",
+                   detail="entropy references outside the frame: %s" % refs)
+    # setters: rng=None resolves to global_prng and nothing else
+    for rel, q in [(MATE + "TwoWayCross.py", "TwoWayCross.rng"),
+                   (CFG + "SampledSelectionConfigurationMixin.py", "SampledSelectionConfigurationMixin.rng")]:
+        try:
+            cls, attr = q.split(".")
+            tree = ast.parse(loopcut.read_source(rel))
+            setter = [f for c in tree.body if isinstance(c, ast.ClassDef) and c.name == cls for f in c.body
+                      if isinstance(f, ast.FunctionDef) and f.name == attr and any(
+                          isinstance(d, ast.Attribute) and d.attr == "setter" for d in f.decorator_list)]
+            refs = frames.entropy_refs(setter[0]) if setter else [("?", "setter not found")]
+        except Exception as e:
+            refs = [("?", repr(e))]
+        ctx.record("frame:%s:%s.setter:None-resolves-to-global_prng-only" % (rel.split("/")[-1], q), not refs, kind="frame", detail=str(refs))
+
+
+class _Rec:
+    """records attribute reads/writes and calls made on a module proxy; every result is again a recording proxy,
+    so any chain of calls the function under contract makes is logged instead of crashing the harness"""
+
+    def __init__(self, name, log, rets=None):
+        object.__setattr__(self, "_n", name)
+        object.__setattr__(self, "_log", log)
+        object.__setattr__(self, "_rets", rets or {})
+
+    def __getattr__(self, a):
+        if a.startswith("__") and a.endswith("__"):
+            raise AttributeError(a)
+        return _Rec(self._n + "." + a, self._log, self._rets)
+
+    def __setattr__(self, a, v):
+        self._log.append((self._n + "." + a + "=", (v,), ()))
+
+    def __call__(self, *args, **kw):
+        self._log.append((self._n, args, tuple(sorted(kw.items()))))
+        r = self._rets.get(self._n.split(".")[-1])
+        if callable(r):
+            return r(*args, **kw)
+        if r is not None:
+            return r
+        return _Rec(self._n + "()", self._log, self._rets)
+
+    def __repr__(self):
+        return "<%s>" % self._n
+
+
+@unit(P, "trace[prng.seed / prng.spawn touch exactly the python stream and numpy's legacy seed]", "A1",
+      targets=[PRNG + ":seed", PRNG + ":spawn"])
+def u_seed(ctx):
+    """proxy execution of the real seed()/spawn() with recording stand-ins for the `random` and `numpy` modules"""
+    log = []
+    tok = object()
+    draws = []
+
+    def _draw(kind):
+        def f_(*a):
+            v = (kind,) + a + (len(draws),)
+            draws.append(v)
+            return v
+        return f_
+    pyr = _Rec("py_random", log, {k_: _draw(k_) for k_ in ("randint", "getrandbits", "randrange", "random")})
+    npx = _Rec("numpy", log)
+    gpx = _Rec("global_prng", log)
+    f = loopcut.Extracted(PRNG + ":seed", overrides={"py_random": pyr, "numpy": npx, "global_prng": gpx})
+    try:
+        f(tok)
+    except Exception as ex_:       # the function left the recorded protocol in a way the proxies cannot follow
+        log.append(("raised %r" % (ex_,), (), ()))
+    names = [c[0] for c in log]
+    DRAW = {"py_random.randint", "py_random.getrandbits", "py_random.randrange", "py_random.random"}
+    NPSEED = {"numpy.random.seed", "global_prng.seed"}
+    ctx.record("seed: the python stream is seeded with s before anything is drawn from it",
+               names[:1] == ["py_random.seed"] and log[0][1] == (tok,) and names.count("py_random.seed") == 1, detail=str(log))
+    nps = [c for c in log if c[0] in NPSEED]
+    ctx.record("seed: numpy's global stream is re-seeded through its seed() entry point (which resets the whole state, cached "
+               "deviates included) with a value that is s or was drawn from the freshly seeded python stream",
+               len(nps) >= 1 and all(len(c[1]) == 1 and (c[1][0] is tok or c[1][0] in draws) for c in nps), detail=str(log))
+    other = [n for n in names if n not in DRAW | NPSEED | {"py_random.seed"}]
+    ctx.record("seed: no other entropy API touched (no generator constructed, no state assigned, no clock / OS entropy)",
+               not other, detail=str(other))
+    # spawn: generators seeded only from the python stream
+    log2 = []
+    pyr2 = _Rec("py_random", log2, {"getrandbits": lambda b: ("bits", b), "randint": lambda lo, hi: ("randint", lo, hi)})
+    made = []
+
+    def Gen(bitgen):
+        made.append(bitgen)
+        return ("Generator", bitgen)
+
+    def BG(seed):
+        return ("BitGenerator", seed)
+    g = loopcut.Extracted(PRNG + ":spawn", overrides={"py_random": pyr2, "Generator": Gen, "PCG64": BG})
+    try:
+        one = g(None, BG, 64)
+        many = g(3, BG, 64)
+    except Exception as ex_:
+        one, many = None, None
+        log2.append(("raised %r" % (ex_,), (), ()))
+    src = [c[0] for c in log2]
+    ctx.record("spawn: every new stream is seeded from the python stream only", set(src) <= {"py_random.getrandbits", "py_random.randint"}
+               and len(src) == 4 and len(made) == 4, detail=str(log2))
+    ctx.record("spawn: n=None gives one generator, n=3 a list of three", isinstance(one, tuple) and isinstance(many, list) and len(many) == 3,
+               detail=str((one, many)))
